@@ -58,6 +58,13 @@ class Run:
         except (AnalysisError, NormError) as e:
             self.errors.append('%s: %s' % (getattr(fn, '__name__', 'group'), e))
             return None
+        except (RecursionError, AttributeError, IndexError, KeyError, TypeError, ValueError, AssertionError, ZeroDivisionError) as e:
+            # a rule tripped over code it was not written for: that group decides nothing (a refusal), the other groups still speak
+            import sys
+            import traceback
+            traceback.print_exc(file=sys.stderr)
+            self.errors.append('%s: internal error of the rule on this tree (%s: %s)' % (getattr(fn, '__name__', 'group'), type(e).__name__, str(e)[:160]))
+            return None
 
     # -- recording ---------------------------------------------------------
     def rule(self, name, text):
